@@ -2,6 +2,7 @@ import Compute.Drv.Common
 import Compute.Model.Scalar
 import Compute.Model.VecOps
 import Compute.Model.VopsScalar
+import Compute.Model.F64Consts
 /-
 Driver for C04 (model at `Float`).  Operands: `v n h1..hn` (Vector), `m r c n h1..hn` (Matrix built
 by `Matrix::new(data, r, c)`), `s h` (f64).  Values in replies use the same syntax (without the
@@ -213,7 +214,7 @@ def c04Step (args : List String) : String :=
         | "prod" => ok (showFloat (prodL x))
         | "norm" => ok (showFloat (normL x))
         | "max" => ok (showFloat (maxL isNaNF nanF x))
-        | "logsumexp" => ok (showFloat (logsumexpL isNaNF nanF x))
+        | "logsumexp" => ok (showFloat (logsumexpE isNaNF nanF (F64Consts.negInf (α := Float)) x))
         | "logmeanexp" => ok (showFloat (logmeanexpL isNaNF nanF x))
         | _ => badOp
   | "dot" :: rest =>
